@@ -155,7 +155,7 @@ Agree(mm, dd) ==
 
 InvThrough == Agree(m, d) /\ GoodDisk(d, am) /\ O!Verdict(F!Decode(d), TRUE).k = "ok"
 InvPhys ==
-  /\ m.fat = p.fat /\ m.free = p.free /\ m.difat = p.difat /\ m.difatSecs = p.difatSecs /\ m.slots = p.slots
+  /\ m.fat = p.fat /\ m.free = p.free /\ m.difat = p.difat /\ m.difatSecs = p.difatSecs /\ m.slots = [i \in 1..Len(p.slots) |-> P!Core(p.slots[i])]
   /\ m.minifat = p.minifat /\ m.minifatStart = p.minifatStart /\ m.freeMini = p.freeMini /\ m.nsec = p.nsec
   /\ d.hdr.nfat = p.hdr.nfat /\ d.hdr.ndifat = p.hdr.ndifat /\ d.hdr.firstDifat = p.hdr.firstDifat
   /\ d.hdr.nminifat = p.hdr.nminifat /\ d.hdr.firstMinifat = p.hdr.firstMinifat /\ d.hdr.ndir = p.hdr.ndir
